@@ -22,7 +22,7 @@ def run(ctx):
         'memory_model': 'sequential consistency at the granularity of the modelled operations',
         'schedules': 'R round-robin rounds (every schedule with at most R-1 context switches, and every schedule expressible as R passes)',
         'outside': 'more rounds / threads / messages than instantiated; CAS retries beyond the unroll bound; queue capacity of the model; tokio channel internals '
-                   '(FIFO + "send fails iff receiver closed" contract trusted); the dequeue side (one handler per dequeued message) is the sequential lifecycle check of C01/C03'})
+                   '(FIFO + "send fails iff receiver closed" contract trusted)'})
     ctx.assumptions += ['tokio unbounded mpsc: send fails returning the same value iff the receiver is closed/dropped, otherwise appends (FIFO)',
                         'the exiting actor is represented by ActorProperties::set_status(Stopping) followed by the real <ActorPortSet as Drop>::drop body (close + flush)',
                         'user Message::box_message/from_boxed are opaque wrappers of the same message token']
@@ -39,6 +39,34 @@ def run(ctx):
     ctx.bounds['instances'] = [dict(zip(('name', 'senders', 'msgs', 'drainers', 'stoppers', 'rounds', 'cas_unroll', 'spurious'), i)) for i in insts]
     type_gate(ctx, prog)
     ctx.parallel(job, insts)
+    # dequeue side: one handler invocation per dequeued message (sequential, over the real process_message / handle_message of each runtime)
+    import C02_dequeue
+    import C02_dequeue_replay
+    import lifecycle as lc
+    lprog = lc.load()[0]
+    dq = C02_dequeue.instances(ctx.tier)
+    for rt in sorted({i[0] for i in dq}):
+        for fn in ('process_message', 'handle_message'):
+            b = lprog.find_fn('%s::<TActor>::%s' % (rt, fn))
+            if b is None:
+                raise Inconclusive('function not found in dump: %s::%s' % (rt, fn))
+            ctx.encoded(lprog, b)
+    ctx.bounds['dequeue'] = {'instances': [dict(zip(('runtime', 'poll_budget'), i)) for i in dq],
+                             'scope': 'one process_message iteration from an arbitrary loop-head state: ports symbolic (any of Drain marker / plain message / serialized message at the head), '
+                                      'callbacks opaque (Pending within the poll budget, Ok, Err, panic), kill possible at every poll; message identity = the token of the dequeued queue entry',
+                             'outside': 'user from_boxed implementations that fabricate a different message (opaque: returns the same token, fails or panics)'}
+    ctx.parallel(C02_dequeue.job, dq)
+    try:
+        res = C02_dequeue_replay.battery()
+        ctx.translator_validated += len(res)
+        bad = [r for r in res if r['violated']]
+        ctx.extra['dequeue_native_battery'] = res
+        if bad:
+            rec = {'name': 'dequeue.native_battery', 'group': 'C02.dequeue', 'solver_s': 0.0, 'status': 'cex'}
+            ctx.obligations.append(rec)
+            ctx.handle_cex(rec['name'], 'C02.dequeue.native', None, lambda _m: {'replayed': True, 'detail': 'real actor with sender threads: %s' % bad[:3], 'replay': {'which': 'dequeue'}}, rec)
+    except RuntimeError as e:
+        ctx.inconclusive.append('dequeue native battery unavailable: %s' % str(e)[-300:])
 
 
 def job(sub, name, ns, nm, nd, nst, R, U, spurious):
@@ -130,6 +158,9 @@ def replay_file(path):
     import json
     import mailbox_replay
     d = json.load(open(path))
+    if (d.get('replay') or {}).get('which') == 'dequeue':
+        import C02_dequeue_replay
+        return C02_dequeue_replay.replay_from_json(d)
     if (d.get('replay') or {}).get('scenario') == 'typegate':
         rp = d['replay']
         obs = native_typegate(rp['local'], rp['wrong'])
